@@ -87,7 +87,7 @@ Fixpoint items_ok (n i : nat) (l : list item) : bool :=
   match l with [] => true | it :: r => item_ok i n it && items_ok n (S i) r end.
 Definition value_ok (v : value) : bool :=
   nosent (str_value v) &&
-  match v with VList l => items_ok (length l) O l | _ => true end.
+  match seq_of v with Some l => items_ok (length l) O l | None => true end.
 Definition ctx_ok (c : ctx) : bool := forallb (fun kv => value_ok (snd kv)) c.
 
 (* ------------------------------------------------------------------ *)
@@ -152,9 +152,9 @@ Section Render.
         if t then render_leaves None a
         else match b with Some b' => render_leaves None b' | None => SOk [] [] end
     | NEach _ x body =>
-        match lookup c x with
-        | Some (VList items) => render_items body (length items) O items
-        | _ => SOk [] []
+        match lookup_seq c x with
+        | Some items => render_items body (length items) O items
+        | None => SOk [] []
         end
     end.
 
